@@ -159,6 +159,25 @@ def loadBlobCopies : List Copy → Option Nat
   | .good p :: _ => some p
   | _ :: rest => loadBlobCopies rest
 
+/-- a stored copy of a blob: its ciphertext length in its pack (copies written with and without
+    compression differ in length) and what decoding it yields -/
+structure StoredCopy where
+  len : Nat
+  state : Copy
+deriving DecidableEq, Repr
+
+/-- `Repository.loadBlob` with the read buffer made explicit: for **every** copy the buffer is
+    re-sliced / re-allocated to that copy's `Blob.Length` (the `switch` at the top of the loop)
+    before `ReadAt`; the iterator needs exactly `len` bytes (`readFull` fails on fewer), so a copy
+    decodes only if the buffer has its length. `bufLen` = `len(buf)` carried between iterations. -/
+def loadBlobSized : List StoredCopy → Nat → Option Nat
+  | [], _ => none
+  | c :: rest, _ =>
+    let bufLen := c.len
+    match c.state with
+    | .good p => if bufLen = c.len then some p else loadBlobSized rest bufLen
+    | _ => loadBlobSized rest bufLen
+
 /-! ### Executable statement of the property (on an observed callback log) -/
 
 def countId (id : Nat) (log : List CB) : Nat := (log.filter (fun c => c.id == id)).length
